@@ -115,6 +115,34 @@ def run(ctx):
                       'established: the addition overflows for civil times near civil_second::max()', construct='saturate:after')
     ctx.check(n >= 2, 'C10-saturate', 'both unguarded conversions of MakeTime found', f, 'found %d' % n, construct='saturate:count')
 
+    # every difference of civil seconds that MakeTime itself computes with its argument is taken only where the argument is
+    # bounded on both sides by table entries or by the type's civil_min / civil_max (an unbounded difference overflows
+    # 64 bits for civil times far outside the table)
+    from ..frontend import owner_fn
+    n_diff = 0
+    for x in walk(f):
+        if not (x.get('kind') == 'CXXOperatorCallExpr' and callee(x) and callee(x)[0] == 'fn' and callee(x)[1].get('name') == 'operator-'
+                and owner_fn(x) is f and len(call_args(x)) == 2):
+            continue
+        a_, b_ = call_args(x)
+        if not all('civil_time' in ((dtype(y) or '') + (qtype(y) or '')) or 'civil_second' in (qtype(y) or '') for y in (a_, b_)):
+            continue
+        ka, kb = keys.key(a_), keys.key(b_)
+        if csk not in (ka, kb):
+            continue
+        n_diff += 1
+        fs = set(F.facts_at_ast(x) or ())
+        for n_ in sv.cfg.nodes_for(x):
+            fs |= set(fa for fa in sv.facts(sv.conds_at(n_)) if len(fa) == 3 and fa[0] in ('<', '<='))      # (entries named relative to the search result)
+        BOUND = ('.civil_sec', '.prev_civil_sec', '.civil_max', '.civil_min')
+        upper = any(op in ('<', '<=') and a == csk and F.resolve_key(b).endswith(BOUND) for (op, a, b) in fs)
+        lower = any(op in ('<', '<=') and b == csk and F.resolve_key(a).endswith(BOUND) for (op, a, b) in fs)
+        ctx.check(upper and lower, 'C10-saturate', 'civil difference at %s only for a bounded civil time' % pos(x), x,
+                  'the difference %s is computed without the civil time being bounded %s by a table entry or the type\'s civil_%s: it '
+                  'overflows 64 bits for civil times far from the table (up to civil_second::%s())'
+                  % (keys.key(x)[:80], 'above' if not upper else 'below', 'max' if not upper else 'min', 'max' if not upper else 'min'),
+                  construct='saturate:maketime:diff', detail='upper=%s lower=%s' % (upper, lower))
+
     # ---- C10-saturate: TimeLocal
     u, f = ctx.fn('cctz::TimeZoneInfo::TimeLocal')
     F = ctx.facts(f)
@@ -190,12 +218,21 @@ def run(ctx):
                           'the shifted-back instant %s is moved forward again without having itself been tested against '
                           'time_point::max() - offset: the sum overflows at the end of the range instead of saturating' % tk,
                           construct='saturate:timelocal:add')
+    # all three instants of the lookup are moved forward (a field left behind is 400*N years in the past)
+    covered, undecided = _fields_moved(ctx, f, [a_[0] for a_ in adds] + mins + sums)
+    if adds or mins or sums:
+        missing = [fl for fl in ('pre', 'trans', 'post') if fl not in covered]
+        ctx.check3(None if (undecided and missing) else not missing, 'C10-saturate', 'TimeLocal moves pre, trans and post forward alike', f,
+                   'the instant(s) %s of the shifted-back lookup are not moved forward by the 400-year offset: for a civil time in a '
+                   'gap or overlap of a far-future year that field names an instant 400*N years too early'
+                   % ', '.join(missing), construct='saturate:timelocal:fields', detail=','.join(sorted(covered)),
+                   unknown_why='which fields the saturating addition is applied to could not be followed (%s)' % undecided)
     ctx.check3(None if (len(mults) >= 1 and not adds and not mins and not sums) else (len(mults) >= 1 and len(adds) + len(mins) + len(sums) >= 1), 'C10-saturate',
                'TimeLocal shift arithmetic found', f,
                'found %d/%d' % (len(mults), len(adds) + len(mins) + len(sums)), construct='saturate:timelocal:count',
                unknown_why='the way TimeLocal moves the shifted-back instant forward again was not recognised (neither += under '
                            'a test against max - offset nor min(instant, max - offset) + offset)')
-    ctx.minimum('C10-saturate', 9)
+    ctx.minimum('C10-saturate', 13)
 
     # ---- C10-bounds: the per-type saturation bounds are the civil images of the two ends of the instant range
     _check_bounds(ctx)
@@ -462,3 +499,95 @@ def _check_libc(ctx):
                           'the civil year can be %s here and is narrowed to %s: mktime() is asked about another year instead of the '
                           'result saturating' % (b[1] if b else '', dtype(x)), construct='libc:narrow:%s' % fname_(ff), detail=str(b[1]) if b else '')
     ctx.minimum('C10-libc', 3)
+
+
+def _fields_moved(ctx, f, sites):
+    """Fields (pre / trans / post) of the civil_lookup that the given addition sites of TimeLocal (or of a helper / lambda
+    it is split into) are applied to.  Returns (set of field names, reason when some site could not be followed)."""
+    from ..frontend import owner_fn
+    covered = set()
+    undecided = ''
+    FIELDS = ('pre', 'trans', 'post')
+
+    def field_of(e):
+        x = peel(e)
+        while x is not None and x.get('kind') == 'UnaryOperator' and x.get('opcode') in ('&',):
+            x = peel(kids(x)[0])
+        if x is not None and x.get('kind') == 'MemberExpr' and x.get('name') in FIELDS:
+            return x.get('name')
+        return None
+    for site in sites:
+        fn_ = owner_fn(site)
+        # the instant the site operates on
+        args = call_args(site)
+        tgt = args[0] if args else None
+        pt = peel(tgt) if tgt is not None else None
+        while pt is not None and pt.get('kind') in ('MaterializeTemporaryExpr', 'CXXConstructExpr', 'CXXBindTemporaryExpr') and len(kids(pt)) == 1:
+            pt = peel(kids(pt)[0])
+        if pt is not None and pt.get('kind') == 'CallExpr' and callee(pt) and callee(pt)[0] == 'fn' and callee(pt)[1].get('name') == 'min':
+            # min(instant, limit): the instant is the argument that is not the limit
+            cand = [a for a in call_args(pt)]
+            pt = None
+            for a in cand:
+                pa = peel(a)
+                if pa is not None and (field_of(pa) or (pa.get('kind') == 'UnaryOperator' and pa.get('opcode') == '*') or
+                                       (pa.get('kind') == 'DeclRefExpr' and (pa.get('referencedDecl') or {}).get('kind') == 'ParmVarDecl')):
+                    pt = pa
+        if pt is None:
+            undecided = 'operand of the addition at %s' % pos(site)
+            continue
+        fl = field_of(pt)
+        if fl:
+            covered.add(fl)
+            continue
+        # *tp with tp the variable of a range-for over a braced list of field addresses
+        if pt.get('kind') == 'UnaryOperator' and pt.get('opcode') == '*' and peel(kids(pt)[0]).get('kind') == 'DeclRefExpr':
+            vid = (peel(kids(pt)[0]).get('referencedDecl') or {}).get('id')
+            loop = next((a for a in ancestors(site) if a.get('kind') == 'CXXForRangeStmt' and
+                         any(d.get('kind') == 'VarDecl' and d.get('id') == vid for d in walk(a))), None)
+            if loop is not None:
+                rng = [d for d in walk(loop) if d.get('kind') == 'VarDecl' and (d.get('name') or '').startswith('__range')]
+                lst = [y for y in walk(rng[0]) if y.get('kind') == 'InitListExpr'] if rng else []
+                if lst:
+                    fls = [field_of(el) for el in kids(lst[0])]
+                    if all(fls):
+                        covered |= set(fls)
+                        continue
+            # a pointer parameter of a helper: the fields are those whose addresses the callers pass
+            d_ = fn_['_u'].by_id.get(vid) if fn_ is not None else None
+            if d_ is not None and d_.get('kind') == 'ParmVarDecl':
+                pt = peel(kids(pt)[0])
+            else:
+                undecided = 'the instant updated at %s' % pos(site)
+                continue
+        if pt.get('kind') == 'DeclRefExpr' and (pt.get('referencedDecl') or {}).get('kind') == 'ParmVarDecl' and fn_ is not None and fn_ is not f:
+            # a helper / lambda taking the instant: look at its call sites in scope
+            pidx = [i for i, p_ in enumerate(params_of(fn_)) if p_['id'] == pt['referencedDecl'].get('id')]
+            from ..callgraph import fkey as _fk
+            found_call = False
+            for (uu, ff) in ctx.scope(f):
+                for y in walk(ff):
+                    if y.get('kind') in ('CallExpr', 'CXXOperatorCallExpr') and callee(y) and callee(y)[0] == 'fn' and \
+                            _fk(fn_) in ctx.G.resolve_decl(callee(y)[1]):
+                        ca = call_args(y)
+                        if y.get('kind') == 'CXXOperatorCallExpr' and fn_.get('name') == 'operator()':
+                            ca = ca[1:]
+                        if pidx and pidx[0] < len(ca):
+                            fl2 = field_of(ca[pidx[0]])
+                            # the result must land in the same field (or the helper updates it through the pointer)
+                            par = y.get('_p')
+                            while par is not None and par.get('kind') in ('ImplicitCastExpr', 'MaterializeTemporaryExpr', 'CXXBindTemporaryExpr',
+                                                                          'ExprWithCleanups', 'CXXConstructExpr'):
+                                par = par.get('_p')
+                            dst = None
+                            if par is not None and par.get('kind') == 'CXXOperatorCallExpr' and callee(par) and \
+                                    callee(par)[1].get('name') == 'operator=':
+                                dst = field_of(call_args(par)[0])
+                            if fl2 and (dst == fl2 or dst is None and '*' in (qtype(params_of(fn_)[pidx[0]]) or '')):
+                                covered.add(fl2)
+                                found_call = True
+            if not found_call:
+                undecided = 'the call sites of %s' % (qn(fn_) or '?')
+            continue
+        undecided = 'the instant updated at %s' % pos(site)
+    return covered, undecided
